@@ -1,0 +1,35 @@
+//! Verification hooks (only compiled with `--cfg typstyle_verif`).
+//!
+//! Per-thread counters of entries into the conversion functions, so that an
+//! external monitor can relate the number of node conversions to the size of
+//! the syntax tree.
+
+use std::cell::Cell;
+
+pub const CONVERT_EXPR: usize = 0;
+pub const CONVERT_PATTERN: usize = 1;
+pub const CONVERT_MARKUP: usize = 2;
+pub const CONVERT_MATH: usize = 3;
+
+thread_local! {
+    static COUNTERS: Cell<[u64; 4]> = const { Cell::new([0; 4]) };
+}
+
+#[inline]
+pub fn bump(i: usize) {
+    COUNTERS.with(|c| {
+        let mut v = c.get();
+        v[i] += 1;
+        c.set(v);
+    });
+}
+
+/// Reset the counters of the current thread.
+pub fn reset() {
+    COUNTERS.with(|c| c.set([0; 4]));
+}
+
+/// Read the counters of the current thread.
+pub fn read() -> [u64; 4] {
+    COUNTERS.with(|c| c.get())
+}
